@@ -22,10 +22,16 @@ UNITS = {
     'langid_serde': {'crate': 'unic-langid-impl', 'file': 'contracts/kani/langid_serde.rs', 'mod': 'verif_langid_serde',
                      'features': ['serde'], 'preds': False},
     'locale_leaf': {'crate': 'unic-locale-impl', 'file': 'contracts/kani/locale_leaf.rs', 'mod': 'verif_locale_leaf',
-                    'features': [], 'preds': True, 'inject_into': {
-                        'src/extensions/unicode.rs': 'verif_unicode_leaf',
-                        'src/extensions/transform.rs': 'verif_transform_leaf',
-                        'src/extensions/private.rs': 'verif_private_leaf'}},
+                    'features': [], 'preds': True},
+    'locale_unicode_leaf': {'crate': 'unic-locale-impl', 'file': 'contracts/kani/locale_unicode_leaf.rs', 'mod': 'verif_unicode_leaf',
+                            'features': [], 'preds': True, 'host': 'src/extensions/unicode.rs',
+                            'modfile': 'src/extensions/unicode/verif_unicode_leaf.rs'},
+    'locale_transform_leaf': {'crate': 'unic-locale-impl', 'file': 'contracts/kani/locale_transform_leaf.rs', 'mod': 'verif_transform_leaf',
+                              'features': [], 'preds': True, 'host': 'src/extensions/transform.rs',
+                              'modfile': 'src/extensions/transform/verif_transform_leaf.rs'},
+    'locale_private_leaf': {'crate': 'unic-locale-impl', 'file': 'contracts/kani/locale_private_leaf.rs', 'mod': 'verif_private_leaf',
+                            'features': [], 'preds': True, 'host': 'src/extensions/private.rs',
+                            'modfile': 'src/extensions/private/verif_private_leaf.rs'},
 }
 
 
@@ -42,7 +48,7 @@ def harness_text(unit, gen_text=''):
 def list_harnesses(text):
     """[(name, attrs)] for every #[kani::proof] / proof_for_contract fn in text."""
     out = []
-    for m in re.finditer(r'((?:#\[[^\]]*\]\s*)+)fn\s+(\w+)\s*\(', text):
+    for m in re.finditer(r'((?:#\[(?:[^\[\]]|\[[^\]]*\])*\]\s*)+)fn\s+(\w+)\s*\(', text):
         attrs = m.group(1)
         if 'kani::proof' in attrs:
             out.append((m.group(2), attrs))
@@ -68,18 +74,18 @@ def crate_fingerprint(repo_dir, crate):
 
 
 def inject(unit, repo_copy, text):
-    """Add-only injection: the harness file next to lib.rs and one `#[cfg(kani)] mod` line."""
+    """Add-only injection: the harness file as a child module + one `#[cfg(kani)] mod` line in its host file."""
     u = UNITS[unit]
-    src = os.path.join(repo_copy, u['crate'], 'src')
-    dst = os.path.join(src, u['mod'] + '.rs')
-    if os.path.exists(dst) and open(dst).read() == text:
-        return
-    open(dst, 'w').write(text)
-    lib = os.path.join(src, 'lib.rs')
+    croot = os.path.join(repo_copy, u['crate'])
+    dst = os.path.join(croot, u.get('modfile', 'src/%s.rs' % u['mod']))
+    os.makedirs(os.path.dirname(dst), exist_ok=True)
+    if not (os.path.exists(dst) and open(dst).read() == text):
+        open(dst, 'w').write(text)
+    host = os.path.join(croot, u.get('host', 'src/lib.rs'))
     line = '\n#[cfg(kani)]\nmod %s;\n' % u['mod']
-    cur = open(lib).read()
+    cur = open(host).read()
     if line not in cur:
-        open(lib, 'a').write(line)
+        open(host, 'a').write(line)
 
 
 RESULT_RE = re.compile(r'\*\* (\d+) of (\d+) failed(?: \((\d+) (?:unreachable|undetermined)[^)]*\))?')
